@@ -314,9 +314,11 @@ class PteraTransformer(NodeTransformer):
     def _set(self, name):
         return ast.Name(id=self.lib[name][0], ctx=ast.Store())
 
-    def _interact(self, *args):
+    def _interact(self, *args, alias=None):
         varname, key, ann, value, overridable = args
-        if not self.should_instrument(varname, ann):
+        if not self.should_instrument(varname, ann) and not (
+            alias and self.should_instrument(alias, ann)
+        ):
             return value if isinstance(value, ast.AST) else ast.Constant(value)
 
         args = [
@@ -400,6 +402,7 @@ class PteraTransformer(NodeTransformer):
     def make_interaction(self, target, ann, value, orig=None, expression=False):
         """Create code for setting the value of a variable."""
         prelude = []
+        alias = None
         if ann and isinstance(target, ast.Name):
             self._record_annotation(target, ann)
         ann_arg = ann if ann else ast.Constant(value=None)
@@ -458,6 +461,8 @@ class PteraTransformer(NodeTransformer):
         elif isinstance(target, ast.Attribute) and isinstance(
             target.value, ast.Name
         ):
+            # The selector may refer to the attribute as obj.attr
+            alias = f"{target.value.id}.{target.attr}"
             value_args = [
                 target.value.id,
                 self._wrap_call("__ptera_Key", "attr", target.attr),
@@ -480,7 +485,7 @@ class PteraTransformer(NodeTransformer):
         if value_args is None:
             new_value = value
         else:
-            new_value = self._interact(*value_args)
+            new_value = self._interact(*value_args, alias=alias)
         if isinstance(target, str):
             assert not expression
             return [ast.Expr(new_value)]
